@@ -61,12 +61,12 @@ def run(rep, tier):
     rep.rule("Q-find", "TextgridTier.find interpreted on a tier with labels from a small alphabet for every query / substring / regex mode against python's ==, in and re.findall(..., re.I)")
     rep.rule("Q-nonentries", "IntervalTier.getNonEntries against: exactly the unlabelled stretches of positive length, entries plus non-entries tile [0, maxTimestamp]")
     rep.rule("Q-timestamps", "timestamps is the sorted set of all boundary times")
-    rep.rule("Q-values", "utils.getValuesInInterval / getValuesInIntervals keep exactly the samples with start <= t <= end in input order; getValuesAtPoints (exact mode) returns the sample at each point")
+    rep.rule("Q-values", "utils.getValuesInInterval / getValuesInIntervals keep exactly the samples with start <= t <= end in input order; getValuesAtPoints returns the sample at each point (exact mode) or a sample at minimal distance from it (fuzzy mode, 3 samples in any order with ties)")
     rep.rule("Q-overlap", "utils.intervalOverlapCheck agrees with interval arithmetic (positive overlap; touching counts only when boundaryInclusive)")
     rep.rule("Q-equality", "tier and textgrid equality: reflexive, symmetric, False after any single change of name, type, label, entry count, timestamp or span")
     rep.rule("Q-validate", "validate() returns False exactly when a span mismatch or an out-of-span / out-of-order entry exists")
-    rep.not_decided.append("getValuesAtPoints with fuzzyMatching (nearest-sample search with index bookkeeping)")
-    rep.not_decided.append("utils.invertIntervalList (list surgery with sentinel values)")
+    rep.rule("Q-invert", "utils.invertIntervalList on 0-2 (thorough 3) disjoint generic intervals in every input order, with both / no / one bound: exactly the positive-length gaps between consecutive intervals plus the stretches up to a bound lying strictly outside")
+    rep.not_decided.append("invertIntervalList on overlapping input intervals or intervals reaching beyond the bounds (the helper is only defined on disjoint lists within bounds); an empty list with one bound")
     rep.not_decided.append("that tolerant equality distinguishes every change 'beyond rounding noise' (a numeric threshold question; the tolerance is abstracted to exact equality)")
 
     # ---- find
@@ -188,6 +188,80 @@ def run(rep, tier):
                  lambda I, mode: I.call_value(I.getattr(build_tier(I, "point", "T", pts, m, M), "getValuesAtPoints"), [Lst([Tup(list(r)) for r in data3]), False], {}),
                  lambda O, mode: [next((row for row in data3 if O.eq(row[0], p[0])), ()) for p in pts],
                  "2 generic points x 2 time-sorted samples", vap_eq)
+
+    # getValuesAtPoints, fuzzy mode: samples in any order, ties among sample times allowed (values are distinct numbers,
+    # so python's sort of equal-time rows is decided); every returned row is a sample at minimal distance from its point
+    for npts in ([2] if tier == "quick" else [2, 3]):
+        at = Atoms()
+        fpts, m_, M_ = declare_tier(at, npts, "point", span=True, span_atoms=False)
+        fd = [at.var("d%d" % i) for i in (1, 2, 3)]
+        data4 = [(x, Lin.num(10 * i), "v%d" % i) for i, x in enumerate(fd, 1)]
+
+        def fz_spec(O, mode, fpts=fpts, data4=data4):
+            out = []
+            for p_ in fpts:
+                ds = [(r[0] - p_[0]) if O.ge(r[0], p_[0]) else (p_[0] - r[0]) for r in data4]
+                out.append([r for r, dr in zip(data4, ds) if all(O.le(dr, dx) for dx in ds)])
+            return out
+
+        def fz_eq(I, got, want):
+            g = got.items
+            if len(g) != len(want):
+                return "one result per point expected: %d != %d" % (len(g), len(want))
+            for k_, (gi, acc) in enumerate(zip(g, want)):
+                gl = gi.items if isinstance(gi, Tup) else list(gi)
+                if not any(entry_equal(I, gl, r) for r in acc):
+                    return "point %d: code returns %s, the nearest sample(s) are %s" % (k_ + 1, show(gi), show([tuple(r) for r in acc]))
+            return None
+        simple_table(rep, "Q-values", "PointTier.getValuesAtPoints", at, ["fuzzy"],
+                     lambda I, mode, fpts=fpts, m_=m_, M_=M_, data4=data4: I.call_value(I.getattr(build_tier(I, "point", "T", fpts, m_, M_), "getValuesAtPoints"), [Lst([Tup(list(r)) for r in data4]), True], {}),
+                     fz_spec, "%d generic points x 3 samples in any order (ties allowed), fuzzy matching" % npts, fz_eq)
+
+    # ---- invertIntervalList: complement of a list of disjoint intervals within optional bounds
+    import itertools as _it
+    fn_inv = idx.get("utilities.utils:invertIntervalList")
+    for k in ([0, 1, 2] if tier == "quick" else [0, 1, 2, 3]):
+        at = Atoms()
+        ients, lo, hi = declare_tier(at, k, "interval", span=True)
+        pairs = [(e[0], e[1]) for e in ients]
+        perms = list(_it.permutations(range(k)))
+        bounds = [("both", lo, hi), ("none", None, None)] + ([("min", lo, None), ("max", None, hi)] if k else [])
+        if k == 0:
+            at.rel("m", "<", "M")
+        imodes = [(perm, b[0]) for perm in perms for b in bounds]
+
+        def inv_code(I, mode, pairs=pairs, bounds=bounds):
+            perm, bname = mode
+            b = [x for x in bounds if x[0] == bname][0]
+            return I.call_function(fn_inv, [Lst([Tup([pairs[i][0], pairs[i][1]]) for i in perm]), b[1], b[2]], {})
+
+        def inv_spec(O, mode, pairs=pairs, bounds=bounds):
+            """the gaps of positive length between consecutive intervals, plus [min, first start) and (last end, max]
+            when the bound is given and lies strictly outside"""
+            perm, bname = mode
+            b = [x for x in bounds if x[0] == bname][0]
+            if not pairs:
+                return [(b[1], b[2])] if b[1] is not None else []
+            out = []
+            if b[1] is not None and O.lt(b[1], pairs[0][0]):
+                out.append((b[1], pairs[0][0]))
+            for x, y in zip(pairs, pairs[1:]):
+                if O.lt(x[1], y[0]):
+                    out.append((x[1], y[0]))
+            if b[2] is not None and O.lt(pairs[-1][1], b[2]):
+                out.append((pairs[-1][1], b[2]))
+            return out
+
+        def inv_eq(I, got, want):
+            g = [x.items if isinstance(x, Tup) else list(x) for x in got.items]
+            if len(g) != len(want):
+                return "code %s, spec %s" % (show(got), show(want))
+            for x, y in zip(g, want):
+                if len(x) != 2 or not num_equal(I, x[0], y[0]) or not num_equal(I, x[1], y[1]):
+                    return "code %s, spec %s" % (show(got), show(want))
+            return None
+        simple_table(rep, "Q-invert", "utilities.utils:invertIntervalList", at, imodes, inv_code, inv_spec,
+                     "%d disjoint generic intervals (touching allowed) in every input order x bounds (both, none%s)" % (k, ", min only, max only" if k else ""), inv_eq)
 
     # ---- intervalOverlapCheck
     at = Atoms()
